@@ -425,6 +425,11 @@ def r2_set_order(ctx):
             continue
         # S4: pairwise one-way comparison (enumerate + tail slice) is reported once, under its own key
         key_kind = kind
+        # a private helper that did not exist in the reference tree stands for the function it was cut out of
+        lifted = A._lift(repo, [f]) if f.cls is None and f.parent is None else [f]
+        owner = lifted[0] if len(lifted) == 1 else f
+        if owner is sorter and f is not sorter:
+            f = sorter
         if f is sorter and kind == "slice":
             key_kind = "one-way-pairs"
         if kind == "slice" and f is not sorter and not discharged:
